@@ -1,6 +1,7 @@
 import PhyVerif.Driver.Json
 import PhyVerif.Model.C18
 import PhyVerif.Model.C18c
+import PhyVerif.Model.C18p
 import PhyVerif.Spec.C18
 import PhyVerif.Spec.C18c
 namespace PhyVerif.Driver
@@ -121,8 +122,50 @@ def optText (j : Json) (k : String) : R (Option String) :=
   | .ok v => asOpt asStr v
   | .error _ => pure none
 
+/-- a parameter value: null | {"bool": b} | {"int": i} | {"lit": repr(x)} | {"str": s} -/
+def asPScalar (j : Json) : R PScalar := do
+  if j.isNull then return .none
+  if hasFld j "bool" then return .bool (← getBool j "bool")
+  if hasFld j "int" then return .int (← getInt j "int")
+  if hasFld j "lit" then return .float (← getStr j "lit")
+  return .str (← getStr j "str")
+
+def asPVal (j : Json) : R PVal := do
+  if hasFld j "list" then return .list (← fld j "list" >>= asList asPScalar)
+  if hasFld j "tuple" then return .tuple (← fld j "tuple" >>= asList asPScalar)
+  return .scalar (← asPScalar j)
+
+def jPScalar : PScalar → Json
+  | .none => Json.null
+  | .bool b => Json.mkObj [("bool", Json.bool b)]
+  | .int i => Json.mkObj [("int", jInt i)]
+  | .float lit => Json.mkObj [("lit", Json.str lit)]
+  | .str s => Json.mkObj [("str", Json.str s)]
+
+def jPVal : PVal → Json
+  | .scalar a => jPScalar a
+  | .list l => Json.mkObj [("list", jList jPScalar l)]
+  | .tuple l => Json.mkObj [("tuple", jList jPScalar l)]
+
+def jParams (d : Option (List (String × PVal))) : Json :=
+  jOpt (jList fun (kv : String × PVal) => Json.arr #[Json.str kv.1, jPVal kv.2]) d
+
 def runC18 (op : String) (j : Json) : R Json := do
   match op with
+  | "params" =>
+    -- `write_python` then `read_python` on file texts
+    let dJ ← fld j "data" >>= asArr
+    let d ← dJ.mapM fun e => do
+      let p ← asArr e
+      match p with
+      | [k, v] => do pure (← asStr k, ← asPVal v)
+      | _ => .error "entry"
+    let real ← optText j "impl_text"
+    let text := writePython d
+    pure (Json.mkObj [("text", Json.str (String.ofList text)),
+                      ("back", jParams (readPython text)),
+                      ("expected", jParams (some (d.map fun kv => (kv.1.toLower, kv.2)))),
+                      ("real_parsed", jOpt (fun (t : String) => jParams (readPython t.toList)) real)])
   | "number" =>
     -- `_try_make_number` on each string
     let ss ← fld j "strings" >>= asList asStr
